@@ -36,7 +36,7 @@ def model_check(ctx):
     quick = ctx.tier == "quick"
     jobs = []
     # sequential model: hooks (every reachable state of a one-key domain), history-level feed law (bounded depth)
-    jobs.append(lambda: c03.bfs_laws(ctx, "c14", keys=(1,), ns=(1,), ifs=(1, 4), subs=(1,), hooks=(1,),
+    jobs.append(lambda: c03.bfs_laws(ctx, "c14", keys=(1,), ns=(1,) if quick else (1, 2), ifs=(1, 4), subs=(1,), hooks=(1,),
                                      qs=(1, 2), phases=(1, 5, 6) if quick else (1, 2, 3, 4, 5, 6),
                                      fams=["put", "mut", "read", "sub", "unsub", "hook", "unhook", "push"], workers=6))
     jobs.append(lambda: ctx.tlc("RecordAccessGen", cfg_text=vlib.cfg_text(
